@@ -7,6 +7,7 @@ import (
 	"go/ast"
 	"go/constant"
 	"go/token"
+	"go/types"
 	"os"
 	"sort"
 	"strings"
@@ -1092,6 +1093,9 @@ func (tr *gtTr) rangeStmt(x *ast.RangeStmt, env *venv, next cont) gnode {
 // for i := 0; i < len(s); i++ { if cond(s[i]) { return e } }
 func (tr *gtTr) forStmt(x *ast.ForStmt, env *venv, next cont) gnode {
 	if !isFirstMatchFor(x) {
+		if rs := tr.asRange(x, env); rs != nil {
+			return tr.generalRange(rs, env, next)
+		}
 		return tr.generalFor(x, env, next)
 	}
 	bad := func() { gtFail("for loop is not `for i := 0; i < len(s); i++ { if cond { return ... } }`") }
@@ -1276,6 +1280,8 @@ type gtCfg struct {
 	fuel      map[int]string // loop number (source order, from 1) -> Go expression over what is in scope at the loop: iterations + 1 at most
 	ignore    []string       // calls (as statements) of these package functions are skipped: hooks without a body in the build under check
 	litsOf    []string       // fragment: the constant string arguments of every call of a method with one of these names, in source order (a list)
+	alts      []string       // lookup items: other names the table / function may have
+	sig       string         // lookup items: the signature "func(K) V" of a function that may replace the table
 }
 
 type gtState struct {
@@ -2117,6 +2123,10 @@ func gtFamily(name string, items []gtItem) {
 					fn = &gtFn{status: 2, coqName: name}
 					return
 				}
+				if strings.HasPrefix(it.key, "lookup:") {
+					fn = st.lookupByRole(g, it)
+					return
+				}
 				if strings.HasPrefix(it.key, "var:") {
 					p := g.gtPkg(it.dir)
 					if _, ok := p.vars[it.key[4:]]; !ok {
@@ -2155,12 +2165,98 @@ func gtFamily(name string, items []gtItem) {
 	})
 }
 
+// lookupByRole: an integer-keyed, integer-valued lookup that the source writes EITHER as a package-level map literal
+// (m[k], a missing key reads as 0) OR as a total function of the key (a switch): whichever is there is translated
+// under its own name, and the item itself is the function of the key
+//
+//	Definition src_<pkg>_<name>_at (k : Z) : Z
+//
+// in both cases, so that the lemma about it is stated once.  The table / function is looked for under the item's
+// name, then under cfg.alts, then as the only top-level function of the package with the signature cfg.sig.
+func (st *gtState) lookupByRole(g *gen, it gtItem) *gtFn {
+	p := g.gtPkg(it.dir)
+	name := it.key[7:]
+	at := "src_" + p.name + "_" + name + "_at"
+	names := []string{name}
+	if it.cfg != nil {
+		names = append(names, it.cfg.alts...)
+	}
+	for _, n := range names {
+		if _, ok := p.vars[n]; ok {
+			tname, t := st.mapTable(g, p, n, nil)
+			if t.kind != kMap || t.key.kind != kInt || t.elem.kind != kInt {
+				gtFail("package variable %s is not an integer-keyed table of integers", n)
+			}
+			st.pending = append(st.pending, fmt.Sprintf("(* %s: %s[k], a missing key reads as 0 *)\nDefinition %s (k : Z) : Z := go_lookup_z k %s 0%%Z.\n", p.dir, n, at, tname))
+			return &gtFn{status: 2, coqName: at}
+		}
+	}
+	var cands []string
+	for _, n := range names {
+		if fd := p.funcs[n]; fd != nil && fd.Recv == nil {
+			cands = append(cands, n)
+		}
+	}
+	if len(cands) == 0 && it.cfg != nil && it.cfg.sig != "" {
+		for n, fd := range p.funcs {
+			if fd.Recv == nil && fd.Body != nil && strings.ReplaceAll(gtTypeText(fd.Type), " ", "") == strings.ReplaceAll(it.cfg.sig, " ", "") {
+				cands = append(cands, n)
+			}
+		}
+		sort.Strings(cands)
+	}
+	if len(cands) != 1 {
+		gtFail("neither a package variable %s nor exactly one function in its role found (candidates: %v)", name, cands)
+	}
+	fn := st.translateCfg(g, it.dir, cands[0], nil, nil)
+	if fn.status != 2 {
+		gtFail("%s", fn.err)
+	}
+	if fn.partial || len(fn.muts) > 0 || len(fn.params) != 1 || len(fn.results) != 1 || fn.results[0].kind != kInt || fn.usesV || len(fn.abstracts) > 0 || len(fn.preds) > 0 {
+		gtFail("function %s in the role of the table %s is not a total function from an integer to an integer", cands[0], name)
+	}
+	st.pending = append(st.pending, fmt.Sprintf("(* %s: %s(k) in the role of the table %s *)\nDefinition %s (k : Z) : Z := %s k.\n", p.dir, cands[0], name, at, fn.coqName))
+	return &gtFn{status: 2, coqName: at}
+}
+
+// gtTypeText: a function type as "func(K) V" (parameter names dropped)
+func gtTypeText(ft *ast.FuncType) string {
+	var ps, rs []string
+	for _, f := range ft.Params.List {
+		n := len(f.Names)
+		if n == 0 {
+			n = 1
+		}
+		for i := 0; i < n; i++ {
+			ps = append(ps, types.ExprString(f.Type))
+		}
+	}
+	if ft.Results != nil {
+		for _, f := range ft.Results.List {
+			n := len(f.Names)
+			if n == 0 {
+				n = 1
+			}
+			for i := 0; i < n; i++ {
+				rs = append(rs, types.ExprString(f.Type))
+			}
+		}
+	}
+	r := strings.Join(rs, ",")
+	if len(rs) > 1 {
+		r = "(" + r + ")"
+	}
+	return "func(" + strings.Join(ps, ",") + ")" + r
+}
+
 // gtItemName: the Coq identifier an item defines.
 func gtItemName(g *gen, it gtItem) string {
 	p := g.gtPkg(it.dir)
 	switch {
 	case strings.HasPrefix(it.key, "var:"):
 		return "src_" + p.name + "_" + it.key[4:]
+	case strings.HasPrefix(it.key, "lookup:"):
+		return "src_" + p.name + "_" + it.key[7:] + "_at"
 	case strings.HasPrefix(it.key, "const:"):
 		return "src_" + p.name + "_" + it.key[6:]
 	}
